@@ -16,7 +16,12 @@ var zzPlainExt = [8]byte{}
 // zzDownloadingWithBits returns a Downloading 2-piece torrent whose pieces
 // are Done/not Done arbitrarily (bitfield in step), plus its storage.
 func zzDownloadingWithBits() (*torrent, *zzStorage) {
-	info := metainfo.ZZConcreteInfo(zzPieceLen, zzNumPieces, []int64{zzPieceLen * zzNumPieces}, false)
+	return zzDownloadingWithBitsLen(zzPieceLen * zzNumPieces)
+}
+
+// zzDownloadingWithBitsLen: total length may make the last piece shorter.
+func zzDownloadingWithBitsLen(total int64) (*torrent, *zzStorage) {
+	info := metainfo.ZZConcreteInfo(zzPieceLen, zzNumPieces, []int64{total}, false)
 	sto := &zzStorage{}
 	t := zzNewTorrent(info, nil, sto)
 	zzStartDownloading(t, sto)
@@ -39,8 +44,16 @@ func zzDownloadingWithBits() (*torrent, *zzStorage) {
 //vrt:cover ZZRequestStep served
 //vrt:cover ZZRequestStep served while choking (allowed fast)
 //vrt:cover ZZRequestStep rejected out of bounds
-func ZZRequestStep() {
-	t, _ := zzDownloadingWithBits()
+func ZZRequestStep() { zzRequestStep(zzPieceLen * zzNumPieces) }
+
+// ZZRequestStepShortLast: the same with a last piece of 8192+5 bytes.
+//
+//vrt:cover ZZRequestStepShortLast served
+//vrt:cover ZZRequestStepShortLast rejected beyond the short last piece
+func ZZRequestStepShortLast() { zzRequestStep(zzPieceLen + 8197) }
+
+func zzRequestStep(total int64) {
+	t, _ := zzDownloadingWithBitsLen(total)
 	ext := zzPlainExt
 	if vrt.Bool("peer_fast_extension") {
 		ext = zzFastExt
@@ -60,7 +73,13 @@ func ZZRequestStep() {
 	idx, begin, length := vrt.U32("index"), vrt.U32("begin"), vrt.U32("length")
 	from := len(zzSentLog)
 	t.handlePeerMessage(peer.Message{Peer: pe, Message: peerprotocol.RequestMessage{Index: idx, Begin: begin, Length: length}})
-	inRange := idx < zzNumPieces && length != 0 && begin <= zzPieceLen && length <= zzPieceLen-begin
+	var plen uint32
+	if idx < zzNumPieces {
+		plen = t.pieces[idx].Length
+		vrt.Assert((idx == zzNumPieces-1 && int64(plen) == total-zzPieceLen*(zzNumPieces-1)) || (idx < zzNumPieces-1 && plen == zzPieceLen), "fixture piece length wrong")
+	}
+	inRange := idx < zzNumPieces && length != 0 && begin <= plen && length <= plen-begin
+	vrt.Cover(idx == zzNumPieces-1 && !inRange && length != 0 && begin <= zzPieceLen && length <= zzPieceLen-begin, "rejected beyond the short last piece")
 	served := 0
 	for _, s := range zzSentTo(pe, from) {
 		if s.piece != nil {
